@@ -189,10 +189,10 @@ class GarbageCollector:
             basename = norm_marker.rsplit("/", 1)[-1]
             if not basename.endswith(".inflight"):
                 continue
-            data_rel = self._marker_target(norm_marker, basename)
+            targets = self._marker_targets(norm_marker, basename)
 
             if age_ok:
-                protected.add(data_rel)
+                protected.update(targets)
             else:
                 logger.warning(
                     f"Removing abandoned in-flight marker {norm_marker} "
@@ -203,27 +203,38 @@ class GarbageCollector:
                 except Exception as e:
                     logger.warning(f"Failed to delete stale marker {norm_marker}: {e}")
                     # Could not remove the marker -> keep protecting its file
-                    protected.add(data_rel)
+                    protected.update(targets)
 
         return protected
 
-    def _marker_target(self, marker_path: str, basename: str) -> str:
-        """Resolve which file a marker protects.
+    def _marker_targets(self, marker_path: str, basename: str) -> Set[str]:
+        """Resolve which file(s) a marker protects.
 
         The marker's payload names the protected path explicitly (it may be a
         data file, a manifest, or a manifest list). Markers written by older
-        versions carry no payload; for those the historical convention -
-        "<data file basename>.inflight" under data/ - is assumed.
+        versions carry an EMPTY payload; for those the historical convention -
+        "<data file basename>.inflight" under data/ - applies.
+
+        A payload that cannot be READ is a different matter: the marker is
+        named after the file it protects, but that file may live under data/
+        or under the manifests directory. Guessing data/ left an in-flight
+        manifest unprotected (and deleted). Protect every candidate instead.
         """
-        fallback = f"data/{basename[: -len('.inflight')]}"
+        name = basename[: -len(".inflight")]
+        legacy = f"data/{name}"
         try:
-            payload = json.loads(self.storage.read_file(marker_path).decode("utf-8"))
+            raw = self.storage.read_file(marker_path)
+        except Exception as e:
+            logger.warning(f"Cannot read in-flight marker {marker_path}: {e}; protecting all candidates")
+            return {legacy, f"{self.file_manager.manifests_path}/{name}"}
+        try:
+            payload = json.loads(raw.decode("utf-8"))
             target = payload.get("file_path")
         except Exception:
-            return fallback
+            return {legacy}
         if not isinstance(target, str) or not target:
-            return fallback
-        return self._normalize_path(target)
+            return {legacy}
+        return {self._normalize_path(target)}
 
     def _gc_prefix(self, prefix: str, reachable_set: Set[str], grace_period_ms: int) -> int:
         """Garbage collect files in a specific prefix."""
